@@ -1330,3 +1330,101 @@ pub fn gen_paged(seed: u64) -> Scenario {
     }
     sc
 }
+
+/// Family SYNC (C14): a sequential script over the whole LdapConn / EntryStream surface.
+/// Stream calls directly follow their Open (the sync stream borrows the connection).
+pub fn gen_sync(seed: u64) -> Scenario {
+    let mut r = Rng::new(seed);
+    let mut sc = Scenario::new("SYNC");
+    // no schedule draws at all: both runs must be functions of the script alone
+    sc.knobs = Knobs { lenform_extra_max: *r.pick(&[0, 1, 3]), lenform_seed: r.next_u64(), server_closes_on_unbind: r.chance(1, 2), ..Knobs::default() };
+    let mut cs = ClientScript::default();
+    let n = 2 + r.usize(8);
+    let mut arrival = 0usize;
+    let mut slot = 0usize;
+    for _ in 0..n {
+        if r.chance(1, 5) {
+            cs.steps.push(Step::SetMods { mods: gen_mods(&mut r) });
+        }
+        if r.chance(1, 6) {
+            cs.steps.push(Step::Probe);
+        }
+        let mut mods = if r.chance(1, 2) { gen_mods(&mut r) } else { Mods::default() };
+        let tok = format!("#{arrival}");
+        match r.below(10) {
+            0..=5 => {
+                let mut op = gen_rich_op(&mut r);
+                if r.chance(1, 15) {
+                    op = OpSpec::Unbind;
+                }
+                if let OpSpec::Search(_) = op {
+                    let mut p = gen_items_plan(&mut r, &tok, 4, true, &[0, 1]);
+                    if let ReplyPlan::Items { done: Some(d), .. } = &mut p {
+                        let (res, ctrls) = gen_rich_result(&mut r, &op);
+                        d.res = res;
+                        d.ctrls = ctrls;
+                    }
+                    sc.plan.by_token.insert(tok.clone(), p);
+                } else if !matches!(op, OpSpec::Abandon(_) | OpSpec::Unbind) {
+                    let silent = r.chance(1, 8);
+                    if silent {
+                        if mods.timeout_ms.is_none() {
+                            mods.timeout_ms = Some(*r.pick(&[5, 50]));
+                        }
+                        sc.plan.by_token.insert(tok.clone(), ReplyPlan::Silent);
+                    } else {
+                        let (res, ctrls) = gen_rich_result(&mut r, &op);
+                        sc.plan.by_token.insert(tok.clone(), ReplyPlan::Single { after_ms: *r.pick(&[0, 0, 1, 3]), res, ctrls, extra: vec![] });
+                    }
+                }
+                arrival += 1;
+                cs.steps.push(Step::Op { token: tok, op, mods, cancel_after_polls: None });
+            }
+            6 => {
+                // refused before sending
+                let op = if r.chance(1, 2) {
+                    OpSpec::Add { dn: gen_dn(&mut r), attrs: vec![(b"cn".to_vec(), vec![])] }
+                } else {
+                    OpSpec::Search(SearchSpec { base: gen_dn(&mut r), scope: 1, filter_str: "(&(a=b)".into(), filter: None, attrs: vec![] })
+                };
+                cs.steps.push(Step::Op { token: format!("refused{}", cs.steps.len()), op, mods, cancel_after_polls: None });
+            }
+            _ => {
+                let mut p = gen_items_plan(&mut r, &tok, 5, true, &[0, 1]);
+                let n_items = match &p {
+                    ReplyPlan::Items { items, .. } => items.len(),
+                    _ => 0,
+                };
+                if let ReplyPlan::Items { done: Some(d), .. } = &mut p {
+                    let op = OpSpec::Search(simple_search("x", &mut r));
+                    let (res, ctrls) = gen_rich_result(&mut r, &op);
+                    d.res = res;
+                    d.ctrls = ctrls;
+                }
+                sc.plan.by_token.insert(tok.clone(), p);
+                arrival += 1;
+                let adapter = *r.pick(&[Adapter::Direct, Adapter::Direct, Adapter::EntriesOnly]);
+                let base = gen_dn(&mut r);
+                let search = gen_search_spec(&mut r, base);
+                cs.steps.push(Step::Open { token: tok, slot, search, adapter, mods });
+                let reads = if r.chance(2, 3) { n_items + 1 } else { r.usize(n_items + 1) };
+                for _ in 0..reads {
+                    cs.steps.push(Step::Next { slot, cancel_after_polls: None });
+                }
+                if r.chance(4, 5) {
+                    cs.steps.push(Step::Finish { slot });
+                } else {
+                    // make sure the block ends here
+                    cs.steps.push(Step::Probe);
+                }
+                slot += 1;
+            }
+        }
+    }
+    if r.chance(1, 4) && arrival > 0 {
+        sc.plan.close_on_arrival = Some(r.usize(arrival));
+    }
+    sc.clients.push(cs);
+    sc.id_table = gen_id_start(&mut r);
+    sc
+}
